@@ -121,6 +121,25 @@ theorem never_open_beyond_limit_fails :
   revert this
   decide
 
+/-- What `opened_streams` (the gate of `try_load_data_into_once`: only streams with an index below it are
+sent on, and of `check_local_created`) answers is within the limit in force and within what was handed out —
+in EVERY state, hence after every history, a rejected 0-RTT included: the streams opened with the remembered
+limit stay allocated (`never_open_beyond_limit_fails`: ids cannot be taken back) but are held back until the
+peer raises the limit.  Before `fix-C12-0rtt-opened-streams` it answered `unallocated` (3 with a limit of 1). -/
+theorem usable_streams_within_limit (l : Local) (d : Dir) :
+    l.openedStreams d ≤ l.max.get d ∧ l.openedStreams d ≤ l.unalloc.get d := by
+  unfold Local.openedStreams; omega
+
+/-- … and without a 0-RTT rejection nothing is held back: every stream handed out is usable. -/
+theorem usable_streams_all (role : Role) (mb mu : Nat) (l0 : Local) (h0 : Local.new role mb mu = some l0)
+    (ops : List LOp) (hr : ∀ op ∈ ops, op.isRejection = false) (d : Dir) :
+    (l0.run ops).openedStreams d = (l0.run ops).unalloc.get d := by
+  have := Local.within_run l0 ops hr (Local.within_new h0) d
+  unfold Local.openedStreams; omega
+
+example : (({ role := .client, max := ⟨3, 3⟩ } : Local).run
+    [.alloc .uni, .alloc .uni, .alloc .uni, .revise true 1 1]).openedStreams .uni = 1 := by decide
+
 /-- For ALL histories (rejection included) every stream id is handed out at most once. -/
 theorem opened_each_once (role : Role) (mb mu : Nat) (l0 : Local) (h0 : Local.new role mb mu = some l0)
     (ops : List LOp) : (l0.run ops).opened.Nodup :=
@@ -315,7 +334,7 @@ theorem ConsInv.step {init : Per} {r : Remote CtrlSt} (h : ConsInv init r) (op :
     · exact h
     · have e : std.onBlocked r.ctrl d v = (r.ctrl, none) := by rw [hs]; rfl
       rw [e]
-      simp only [Remote.answer, Bool.false_eq_true, if_false]
+      simp only [Remote.answer, Option.bind, Bool.false_eq_true, if_false]
       exact ⟨h.sync, h.base, h.adv⟩
   | eos s =>
     simp only [Remote.step]
@@ -364,38 +383,150 @@ theorem consistent_limit_never_withdrawn (role : Role) (mb mu : Nat) (ops : List
 example : ((Remote.new .client 1 0 (.consistent ⟨1, 0⟩)).run std [.accept 0, .eos 0]).advertised = [(.bi, 2)] := by
   decide
 
-/-- The same for every shipped strategy is false: `DemandConcurrency` sets the limit to whatever a
-STREAMS_BLOCKED frame claims plus one, even if that is lower (a retransmitted, stale STREAMS_BLOCKED). -/
-theorem limit_never_withdrawn_fails :
-    ¬ (∀ (k : CtrlSt) (role : Role) (mb mu : Nat) (ops : List ROp) (s : Nat),
-        sidRole s = role → sidIdx s < (⟨mb, mu⟩ : Per).get (sidDir s) →
-        ∀ m, ((Remote.new role mb mu k).run std ops |>.step std (.accept s)).2 ≠ .exceed m) := by
-  intro h
-  have := h .demand .client 5 5 [.blocked .bi 0] 12 (by decide) (by decide) 1
-  revert this
-  decide
+/-! ### STREAMS_BLOCKED never lowers a limit, never panics, never advertises more than 2^60-1 — ANY strategy
 
-/-! ### STREAMS_BLOCKED values are not bounded by the parser -/
+`recv_streams_blocked_frame` after `fix-C12-streams-blocked-limit`: the strategy's answer is capped at
+`MAX_STREAMS_LIMIT` and only taken when it raises the limit. -/
 
-theorem streams_blocked_no_panic_fails :
-    ¬ (∀ (r : Remote CtrlSt) (d : Dir) (v : Nat), r.poisoned = false → v ≤ VARINT_MAX →
-        (r.step std (.blocked d v)).2 ≠ .panic) := by
-  intro h
-  have := h (Remote.new .client 1 1 .demand) .bi VARINT_MAX rfl (Nat.le_refl _)
-  revert this
-  decide
-
-theorem streams_blocked_no_panic_partial (r : Remote CtrlSt) (d : Dir) (v : Nat) (hp : r.poisoned = false)
-    (hv : v < VARINT_MAX) : (r.step std (.blocked d v)).2 ≠ .panic := by
+theorem Remote.step_blocked_eq {κ : Type} (S : Strategy κ) (r : Remote κ) (d : Dir) (v : Nat)
+    (hp : r.poisoned = false) :
+    (∃ m, (S.onBlocked r.ctrl d v).2 = some m ∧ min m LIMIT > r.max.get d ∧
+        r.step S (.blocked d v) =
+          ({ r with ctrl := (S.onBlocked r.ctrl d v).1, max := r.max.set d (min m LIMIT),
+                    advertised := r.advertised ++ [(d, min m LIMIT)] }, .done (some (min m LIMIT)))) ∨
+    (r.step S (.blocked d v) = ({ r with ctrl := (S.onBlocked r.ctrl d v).1 }, .done none)) := by
+  have hL : LIMIT ≤ VARINT_MAX := by decide
   simp only [Remote.step, hp, Bool.false_eq_true, if_false]
-  cases hc : r.ctrl with
-  | consistent m => simp [std, Remote.answer]
-  | eager w c => simp [std, Remote.answer]
-  | demand =>
-    have : ¬ v + 1 > VARINT_MAX := by omega
-    simp [std, Remote.answer, this]
+  cases hk : (S.onBlocked r.ctrl d v).2 with
+  | none => right; simp [Remote.answer] <;> exact hp
+  | some m =>
+    by_cases hg : min m LIMIT > r.max.get d
+    · left
+      refine ⟨m, rfl, hg, ?_⟩
+      have hv : ¬ min m LIMIT > VARINT_MAX := by omega
+      simp [Remote.answer, Option.bind, hg, hv] <;> exact hp
+    · right; simp [Remote.answer, Option.bind, hg] <;> exact hp
 
-example : (Remote.new .client 1 1 CtrlSt.demand).poisoned = false ∧ (5 : Nat) < VARINT_MAX := by decide
+/-- **streams_blocked_no_panic**: no STREAMS_BLOCKED value (the parser lets every varint through) panics,
+whatever the strategy answers.  Before the fix: `STREAMS_BLOCKED(2^62-1)` + `DemandConcurrency` ⇒
+`VarInt::from_u64(2^62).expect(..)` with the lock held. -/
+theorem streams_blocked_no_panic {κ : Type} (S : Strategy κ) (r : Remote κ) (d : Dir) (v : Nat)
+    (hp : r.poisoned = false) :
+    (r.step S (.blocked d v)).2 ≠ .panic ∧ (r.step S (.blocked d v)).1.poisoned = false := by
+  rcases Remote.step_blocked_eq S r d v hp with ⟨m, _, _, h⟩ | h <;> rw [h] <;> exact ⟨by simp, hp⟩
+
+example : ((Remote.new .client 1 1 CtrlSt.demand).step std (.blocked .bi VARINT_MAX)).2 = .done (some LIMIT) := by
+  decide
+
+/-- A MAX_STREAMS frame answering a STREAMS_BLOCKED never carries more than `MAX_STREAMS_LIMIT` and always
+raises the limit; the limit of the other kind is untouched; no limit ever goes down. -/
+theorem streams_blocked_monotone {κ : Type} (S : Strategy κ) (r : Remote κ) (d : Dir) (v : Nat)
+    (hp : r.poisoned = false) :
+    (∀ d', r.max.get d' ≤ (r.step S (.blocked d v)).1.max.get d') ∧
+    (∀ m, (r.step S (.blocked d v)).2 = .done (some m) →
+        m ≤ LIMIT ∧ r.max.get d < m ∧ (r.step S (.blocked d v)).1.max.get d = m) := by
+  rcases Remote.step_blocked_eq S r d v hp with ⟨m, _, hg, h⟩ | h <;> rw [h]
+  · refine ⟨?_, ?_⟩
+    · intro d'; simp only [Per.get_set]; split
+      · rename_i e; subst e; omega
+      · exact Nat.le_refl _
+    · intro m' hm'
+      injection hm' with hm'; injection hm' with hm'; subst hm'
+      exact ⟨Nat.min_le_right _ _, hg, by simp⟩
+  · exact ⟨fun _ => Nat.le_refl _, fun m' hm' => by injection hm' with hm'; cases hm'⟩
+
+/-- Invariant of `DemandConcurrency`: the limits only grow. -/
+structure DemInv (init : Per) (r : Remote CtrlSt) : Prop where
+  sync : r.ctrl = .demand
+  ok : r.poisoned = false
+  base : ∀ d, init.get d ≤ r.max.get d
+  adv : ∀ x ∈ r.advertised, x.2 ≤ r.max.get x.1
+
+theorem DemInv.step {init : Per} {r : Remote CtrlSt} (h : DemInv init r) (op : ROp) :
+    DemInv init (r.step std op).1 ∨ (r.step std op).1.poisoned = true := by
+  have hs := h.sync
+  cases op with
+  | accept s =>
+    simp only [Remote.step, h.ok, Bool.false_eq_true, if_false]
+    split
+    · right; rfl
+    · split
+      · left; exact h
+      · split
+        · left; exact h
+        · left
+          have e : std.onAccept r.ctrl (sidDir s) (sidIdx s) = (r.ctrl, none) := by rw [hs]; rfl
+          rw [e]
+          simp only [Remote.answer, Bool.false_eq_true, if_false]
+          exact ⟨h.sync, rfl, h.base, h.adv⟩
+  | eos s =>
+    left
+    simp only [Remote.step, h.ok, Bool.false_eq_true, if_false]
+    split
+    · exact h
+    · have e : std.onEos r.ctrl (sidDir s) (sidIdx s) = (r.ctrl, none) := by rw [hs]; rfl
+      rw [e]
+      simp only [Remote.answer, Bool.false_eq_true, if_false]
+      exact ⟨h.sync, h.ok, h.base, h.adv⟩
+  | blocked d v =>
+    left
+    have hc : (std.onBlocked r.ctrl d v).1 = .demand := by rw [hs]; rfl
+    rcases Remote.step_blocked_eq std r d v h.ok with ⟨m, _, hg, e⟩ | e <;> rw [e]
+    · have mono : ∀ d', r.max.get d' ≤ (r.max.set d (min m LIMIT)).get d' := by
+        intro d'; rw [Per.get_set]; split
+        · rename_i e; subst e; omega
+        · exact Nat.le_refl _
+      refine ⟨hc, h.ok, fun d' => Nat.le_trans (h.base d') (mono d'), ?_⟩
+      intro x hx
+      rcases List.mem_append.1 hx with hx | hx
+      · exact Nat.le_trans (h.adv x hx) (mono x.1)
+      · simp only [List.mem_singleton] at hx; subst hx; simp
+    · exact ⟨hc, h.ok, h.base, h.adv⟩
+
+/-- **limit_never_withdrawn** for `DemandConcurrency` (the repo's default strategy besides
+`ConsistentConcurrency`): after ANY history of peer frames — stale, repeated or absurd STREAMS_BLOCKED values
+included — a peer stream below the initial limit or below any MAX_STREAMS value ever sent is never answered
+with STREAM_LIMIT_ERROR.  Before the fix `STREAMS_BLOCKED(0)` took a limit of 5 down to 1 (see the
+`example` below). -/
+theorem demand_limit_never_withdrawn (role : Role) (mb mu : Nat) (ops : List ROp) (s : Nat) :
+    let r := (Remote.new role mb mu .demand).run std ops
+    r.poisoned = false →
+    (sidIdx s < (⟨mb, mu⟩ : Per).get (sidDir s) ∨ ∃ m, (sidDir s, m) ∈ r.advertised ∧ sidIdx s < m) →
+    ∀ m, (r.step std (.accept s)).2 ≠ .exceed m := by
+  intro r hp hlt m hm
+  have inv : DemInv ⟨mb, mu⟩ r := by
+    have key : ∀ (ops : List ROp) (r0 : Remote CtrlSt), DemInv ⟨mb, mu⟩ r0 →
+        (r0.run std ops).poisoned = false → DemInv ⟨mb, mu⟩ (r0.run std ops) := by
+      intro ops
+      induction ops with
+      | nil => intro r0 h _; exact h
+      | cons op ops ih =>
+        intro r0 h hp'
+        rcases h.step op with h' | h'
+        · exact ih _ h' hp'
+        · exfalso
+          have : ∀ (ops : List ROp) (r1 : Remote CtrlSt), r1.poisoned = true → (r1.run std ops).poisoned = true := by
+            intro ops
+            induction ops with
+            | nil => intro r1 h1; exact h1
+            | cons op ops ih2 =>
+              intro r1 h1
+              apply ih2
+              cases op <;> simp [Remote.step, h1]
+          have := this ops _ h'
+          change (Remote.run std (r0.step std op).1 ops).poisoned = false at hp'
+          rw [this] at hp'; cases hp'
+    exact key ops _ ⟨rfl, rfl, fun d => Nat.le_refl _, by intro x hx; cases hx⟩ hp
+  have := accept_exceed_only_above std r s m hm
+  rcases hlt with h | ⟨m', hm', hlt⟩
+  · have := inv.base (sidDir s); omega
+  · have := inv.adv _ hm'; simp only at this; omega
+
+/-- The history that used to withdraw the limit (finding `conformant_peer_rejected:demand`, limit 5,
+stale `STREAMS_BLOCKED(0)`, then peer stream index 3 = id 12): now accepted, no MAX_STREAMS(1) goes out. -/
+example : ((Remote.new .client 5 5 CtrlSt.demand).run std [.blocked .bi 0]).max = ⟨5, 5⟩ ∧
+    (((Remote.new .client 5 5 CtrlSt.demand).run std [.blocked .bi 0]).step std (.accept 12)).2 = .new 0 12 none ∧
+    ((Remote.new .client 5 5 CtrlSt.demand).run std [.blocked .bi 7]).advertised = [(.bi, 8)] := by decide
 
 end GmQuic.Sid
 
@@ -433,21 +564,73 @@ theorem deliver_not_streamState (e : Endpoint) (ms : List (Dir × Nat)) (k : Fra
   all_goals (try split)
   all_goals simp
 
-/-- … and a frame that is legal on its stream type is never answered with STREAM_STATE_ERROR. -/
+/-- The arms that check "already created" are exactly the frame kinds for which RFC 9000 §19.5/§19.8/§19.10
+demands it. -/
+theorem checksCreated_is_rfc (k : FrameKind) : checksCreated k = mustBeCreated k := by cases k <;> rfl
+
+/-- **STREAM_STATE_ERROR exactly when the RFC says so** — for every endpoint state (local id lock not
+poisoned) and every frame: the answer is STREAM_STATE_ERROR iff the frame is on the wrong kind of stream
+(§19.4/5/8/10/13) or is a STREAM / STOP_SENDING / MAX_STREAM_DATA frame for a locally initiated stream that
+is not (yet) open (§19.5/§19.8/§19.10).  Both directions: nothing illegal is accepted, nothing legal is
+answered with this error (no false alarm). -/
+theorem stream_state_error_iff (e : Endpoint) (k : FrameKind) (s a b : Nat) (fin : Bool)
+    (hp : e.loc.poisoned = false) :
+    (e.step (.frame k s a b fin)).2 = .err .streamState ↔
+      (directionOk k (sidRole s != e.role) (sidDir s) = false ∨
+        (sidRole s = e.role ∧ mustBeCreated k = true ∧ sidIdx s ≥ e.loc.openedStreams (sidDir s))) := by
+  have hg := direction_table_is_rfc k (sidRole s != e.role) (sidDir s)
+  have hc := checksCreated_is_rfc k
+  cases hd : directionOk k (sidRole s != e.role) (sidDir s)
+  · rw [hd] at hg
+    simp only [Endpoint.step, hg]
+    simp
+  · rw [hd] at hg
+    by_cases hrole : sidRole s = e.role
+    · have hpi : (sidRole s != e.role) = false := by simp [hrole]
+      rw [hpi] at hg
+      simp only [Bool.false_eq_true, if_false, if_true] at hg
+      simp only [Endpoint.step, hpi, hg, hc, hp, Bool.false_eq_true, if_false]
+      cases hm : mustBeCreated k
+      · simp only [Bool.false_eq_true, if_false]
+        constructor
+        · intro h; exact absurd h (deliver_not_streamState _ _ _ _ _ _ _)
+        · rintro (h | ⟨_, h, _⟩) <;> cases h
+      · simp only [if_true]
+        by_cases hge : sidIdx s ≥ e.loc.openedStreams (sidDir s)
+        · simp [hge, hrole]
+        · simp only [hge, if_false]
+          constructor
+          · intro h; exact absurd h (deliver_not_streamState _ _ _ _ _ _ _)
+          · rintro (h | ⟨_, _, h⟩)
+            · cases h
+            · first | exact h.elim | exact absurd h hge
+    · have hpi : (sidRole s != e.role) = true := by simp [hrole]
+      rw [hpi] at hg
+      simp only [if_true] at hg
+      simp only [Endpoint.step, hpi, hg]
+      constructor
+      · intro h
+        exfalso
+        revert h
+        split
+        · simp
+        · simp
+        · exact deliver_not_streamState _ _ _ _ _ _ _
+      · rintro (h | ⟨h, _, _⟩)
+        · cases h
+        · exact absurd h hrole
+
+/-- … in particular a frame that is legal on its stream type, for a peer-initiated stream or for a local
+stream that is open, is never answered with STREAM_STATE_ERROR. -/
 theorem direction_no_false_alarm (e : Endpoint) (k : FrameKind) (s a b : Nat) (fin : Bool)
-    (h : directionOk k (sidRole s != e.role) (sidDir s) = true) :
+    (hp : e.loc.poisoned = false)
+    (h : directionOk k (sidRole s != e.role) (sidDir s) = true)
+    (ho : sidRole s = e.role → sidIdx s < e.loc.openedStreams (sidDir s)) :
     (e.step (.frame k s a b fin)).2 ≠ .err .streamState := by
-  have := direction_table_is_rfc k (sidRole s != e.role) (sidDir s)
-  rw [h] at this
-  simp only [Endpoint.step, this]
-  cases hp : (sidRole s != e.role)
-  · simp only [Bool.false_eq_true, if_false, if_true]
-    exact deliver_not_streamState _ _ _ _ _ _ _
-  · simp only [if_true]
-    split
-    · simp
-    · simp
-    · exact deliver_not_streamState _ _ _ _ _ _ _
+  intro hx
+  rcases (stream_state_error_iff e k s a b fin hp).1 hx with h' | ⟨hr, _, hge⟩
+  · rw [h] at h'; cases h'
+  · have := ho hr; omega
 
 example : directionOk .stream true .uni = true ∧ directionOk .maxStreamData false .uni = true := by decide
 
@@ -465,20 +648,35 @@ theorem endpoint_limit_enforced_partial (e : Endpoint) (k : FrameKind) (s a b : 
   have hs := peer_beyond_limit_rejected_partial std e.rem s hp hpeer h
   simp only [Endpoint.acceptSid, hs]
 
-/-- RFC 9000 §19.5/§19.8/§19.10 (STREAM / STOP_SENDING / MAX_STREAM_DATA for a locally initiated stream
-that has not yet been created ⇒ STREAM_STATE_ERROR) is NOT implemented: the frame is silently ignored
-(replayed on the real `DataStreams`: run `C12d`, monitor `not_yet_created:*`). -/
-theorem not_yet_created_rejected_fails :
-    ¬ (∀ (e : Endpoint) (k : FrameKind) (s a b : Nat) (fin : Bool), mustBeCreated k = true →
-        sidRole s = e.role → e.loc.role = e.role → sidIdx s ≥ e.loc.unalloc.get (sidDir s) →
-        (e.step (.frame k s a b fin)).2 = .err .streamState) := by
-  intro h
-  let e0 : Endpoint :=
-    { role := .client, loc := { role := .client, max := ⟨3, 3⟩ }, rem := Remote.new .server 3 3 .demand,
-      win := ⟨100, 100, 100⟩ }
-  have := h e0 .stream 0 0 5 false rfl (by decide) rfl (by decide)
-  have e : (e0.step (.frame .stream 0 0 5 false)).2 = .ok 0 [] := by decide
-  rw [e] at this; cases this
+/-- **not_yet_created_rejected** (RFC 9000 §19.5/§19.8/§19.10): STREAM / STOP_SENDING / MAX_STREAM_DATA for a
+locally initiated stream that has not yet been created ⇒ STREAM_STATE_ERROR, nothing changes — for every
+endpoint state.  (`poisoned`: a panic under the `LocalStreamIds` mutex — not reachable from the wire, see
+`limit_update_no_panic_partial` — makes every later call panic instead.)  Before
+`fix-C12-not-yet-created` the frame was answered `Ok(0)`. -/
+theorem not_yet_created_rejected (e : Endpoint) (k : FrameKind) (s a b : Nat) (fin : Bool)
+    (hk : mustBeCreated k = true) (hr : sidRole s = e.role) (hp : e.loc.poisoned = false)
+    (h : sidIdx s ≥ e.loc.unalloc.get (sidDir s)) :
+    e.step (.frame k s a b fin) = (e, .err .streamState) := by
+  have hge : sidIdx s ≥ e.loc.openedStreams (sidDir s) := by
+    unfold Local.openedStreams; omega
+  have hpi : (sidRole s != e.role) = false := by simp [hr]
+  have hc := checksCreated_is_rfc k
+  rw [hk] at hc
+  cases hgate : codeGate k (sidRole s != e.role) (sidDir s) with
+  | streamState => simp only [Endpoint.step, hgate]
+  | pass => simp only [Endpoint.step, hgate, hc, hp, hge, if_true, Bool.false_eq_true, if_false]
+  | accept =>
+    exfalso
+    rw [hpi] at hgate
+    cases k <;> simp only [codeGate, Bool.false_eq_true, if_false] at hgate <;>
+      first | (split at hgate <;> cases hgate) | cases hgate
+
+/-- the witness of the former `not_yet_created_rejected_fails` (client, nothing opened, STREAM on stream 0) -/
+example : let e0 : Endpoint :=
+      { role := .client, loc := { role := .client, max := ⟨3, 3⟩ }, rem := Remote.new .server 3 3 .demand,
+        win := ⟨100, 100, 100⟩ }
+    (e0.step (.frame .stream 0 0 5 false)).2 = .err .streamState ∧
+    ((e0.step (.open_ .bi)).1.step (.frame .stream 0 0 5 false)).2 = .ok 5 [] := by decide
 
 /-! ## 5. Final size (RFC 9000 §4.5) -/
 
@@ -528,20 +726,39 @@ example : streamFinalSizeError 10 none 2 3 true = true ∧ streamFinalSizeError 
   decide
 
 /-- **final_size_rules**, RESET_STREAM: FINAL_SIZE_ERROR exactly when the final size is below what was
-received (`Recv`) or differs from the known final size (`SizeKnown`). -/
+received (`Recv`) or differs from the known final size (`SizeKnown`).  (A final size that is consistent
+but beyond the stream's flow-control limit is a FLOW_CONTROL_ERROR: `reset_beyond_stream_limit`, C11.) -/
 theorem final_size_rules_reset (h : RecvHalf) (final : Nat) (hp : h.phase ≠ .done) :
     resetRx h final = some .finalSize ↔ resetFinalSizeError h.largest (knownFinal h) final = true := by
   cases hph : h.phase with
   | done => exact absurd hph hp
   | recv =>
     simp only [resetRx, hph, resetFinalSizeError, knownFinal]
-    split <;> simp <;> omega
+    split
+    · simp; omega
+    · split <;> simp <;> omega
   | sizeKnown fs =>
     simp only [resetRx, hph, resetFinalSizeError, knownFinal]
     split <;> simp <;> omega
 
 example : resetFinalSizeError 10 none 9 = true ∧ resetFinalSizeError 10 (some 12) 13 = true ∧
     resetFinalSizeError 10 (some 12) 12 = false := by decide
+
+/-- `Recv::recv_reset` after `fix-C11-reset-limit`: a RESET_STREAM that does not contradict the final size is
+accepted iff its final size is within the advertised stream limit; otherwise FLOW_CONTROL_ERROR
+(RFC 9000 §4.5: the final size counts against flow control). -/
+theorem reset_beyond_stream_limit (h : RecvHalf) (final : Nat) (hp : h.phase = .recv) (hf : h.largest ≤ final) :
+    (final > h.msd → resetRx h final = some .flowControl) ∧
+    (final ≤ h.msd → resetRx h final = some (.sync (final - h.largest))) := by
+  have h1 : ¬ final < h.largest := by omega
+  constructor
+  · intro hgt; simp [resetRx, hp, h1, hgt]
+  · intro hle
+    have h2 : ¬ final > h.msd := by omega
+    simp [resetRx, hp, h1, h2]
+
+example : resetRx (RecvHalf.mk0 55) 4318 = some .flowControl ∧ resetRx (RecvHalf.mk0 55) 55 = some (.sync 55) := by
+  decide
 
 /-- The four clauses by name, as consequences (for readers of the property text). -/
 theorem final_size_smaller_than_received (h : RecvHalf) (off len : Nat) (hp : h.phase = .recv)
